@@ -612,6 +612,24 @@ def _long_texts(tier):
             out.append((f"offset{k}", "int a ; " * pad + "int " + "* " * k + "x ;"))
             if pad % 3 == 0:
                 out.append((f"offset-parens{k}", "int a ; " * pad + "int " + "( " * (k // 2) + "x" + " )" * (k // 2) + " ;"))
+    # large inputs: a declaration full of speculative scans placed so that every
+    # one of its tokens falls on a power-of-two token index in turn (buffers,
+    # caches and trimming schemes like such boundaries)
+    probe = ("int ( * ( * x ) ( int ( * ) ( void ) , int * ) ) [ sizeof ( int ) ] = ( int ) ( a ) ; "
+             "void g ( int ( * p ) , int ( T ) , int * ) ; T * q = ( T * ) ( 0 ) ;")
+    ntok = len(probe.split())
+
+    def pad(m):
+        # exactly m tokens of 3- and 5-token declarations (m >= 8)
+        fives = (-m) % 3
+        threes = (m - 5 * fives) // 3
+        return "int b , c ; " * fives + "int a ; " * threes
+
+    for B in ((256, 512, 1024, 2048) if quick else (256, 512, 1024, 2048, 4096, 8192)):
+        for shift in range(0, ntok + 2, 1 if not quick else 2):
+            m = B - shift - 4  # 4 tokens of 'typedef int T ;'
+            if m >= 8:
+                out.append((f"boundary{B}", "typedef int T ; " + pad(m) + probe))
     return out
 
 
